@@ -12,6 +12,7 @@ import (
 	"os"
 	"path/filepath"
 	"sort"
+	"strings"
 	"sync"
 	"testing"
 	"time"
@@ -21,6 +22,7 @@ import (
 	"github.com/bluenviron/mediacommon/v2/pkg/codecs/mpeg4audio"
 
 	"github.com/bluenviron/mediamtx/internal/conf"
+	"github.com/bluenviron/mediamtx/internal/logger"
 	"github.com/bluenviron/mediamtx/internal/stream"
 	"github.com/bluenviron/mediamtx/internal/test"
 	"github.com/bluenviron/mediamtx/internal/unit"
@@ -39,9 +41,24 @@ type c27Rec struct {
 	GOP             []int    `json:"gop"`
 	WithAudio       bool     `json:"with_audio"`
 	Segments        []c27Seg `json:"segments"`
+	Log             []string `json:"log"` // warnings and errors of the recorder
 }
 
-func c27Record(t *testing.T, dir string, rnd *vRand, name string, partMs, segMs int, withAudio bool, frames int) c27Rec {
+// audioOffMs: the audio timestamps start that many ms after (before, if negative) the video timestamps;
+// audioFirst: in every frame interval the audio units are written before the video unit.
+func c27Record(t *testing.T, dir string, rnd *vRand, name string, partMs, segMs int, withAudio bool, frames int,
+	audioOffMs int64, audioFirst bool) (c27Rec, *c27Stream, *c27Obs) {
+	strmModel := &c27Stream{
+		Tracks:  []c27TrackCfg{{Rate: 90000, Video: true, Codec: 1}},
+		PartDur: int64(partMs) * int64(time.Millisecond), SegDur: int64(segMs) * int64(time.Millisecond),
+		MaxPart: 50 * 1024 * 1024, Kind: "recorder",
+	}
+	if withAudio {
+		strmModel.Tracks = append(strmModel.Tracks, c27TrackCfg{Rate: 44100, Codec: 3})
+	}
+	var created []string
+	drained := make(chan struct{})
+	var drainedOnce sync.Once
 	medias := []*description.Media{{
 		Type:    description.MediaTypeVideo,
 		Formats: []rtspformat.Format{&rtspformat.MPEG4Video{PayloadTyp: 96}},
@@ -80,10 +97,21 @@ func c27Record(t *testing.T, dir string, rnd *vRand, name string, partMs, segMs 
 		SegmentDuration: time.Duration(segMs) * time.Millisecond,
 		PathName:        name,
 		Stream:          strm,
-		Parent:          test.NilLogger,
+		Parent: test.Logger(func(l logger.Level, format string, args ...any) {
+			if l == logger.Error && strings.Contains(fmt.Sprintf(format, args...), "B-frames") {
+				drainedOnce.Do(func() { close(drained) })
+				return
+			}
+			if l >= logger.Warn {
+				mu.Lock()
+				rec.Log = append(rec.Log, fmt.Sprintf(format, args...))
+				mu.Unlock()
+			}
+		}),
 		OnSegmentCreate: func(p string) {
 			mu.Lock()
 			segs[p] = &c27Seg{Path: p}
+			created = append(created, p)
 			mu.Unlock()
 		},
 		OnSegmentComplete: func(p string, d time.Duration) {
@@ -115,31 +143,70 @@ func c27Record(t *testing.T, dir string, rnd *vRand, name string, partMs, segMs 
 		for n := rnd.Intn(24); n > 0; n-- {
 			payload = append(payload, byte(rnd.U64()))
 		}
-		sub.WriteUnit(desc.Medias[0], desc.Medias[0].Formats[0], &unit.Unit{
-			PTS: pts, NTP: base.Add(time.Duration(pts) * time.Second / 90000), Payload: unit.PayloadMPEG4Video(payload),
-		})
+		// NTP = timestamp in whole milliseconds after c27Base (5 s ahead, as in the segmenter cases)
+		vms := pts/90 + 5000
+		writeVideo := func() {
+			sub.WriteUnit(desc.Medias[0], desc.Medias[0].Formats[0], &unit.Unit{
+				PTS: pts, NTP: base.Add(time.Duration(vms) * time.Millisecond), Payload: unit.PayloadMPEG4Video(payload),
+			})
+			strmModel.Events = append(strmModel.Events, c27Event{Track: 0, DTS: pts, NTP: vms, NonSync: !key, Size: len(payload)})
+		}
+		if !audioFirst {
+			writeVideo()
+		}
 		if withAudio {
-			// 1024-sample AAC frames at 44100 Hz up to the video time
-			for nextAudio*90000 <= pts*44100 {
+			// 1024-sample AAC frames at 44100 Hz up to the video time; audio time = PTS/44100 + audioOffMs
+			for nextAudio*90000+audioOffMs*90*44100 <= pts*44100 {
+				ams := nextAudio*1000/44100 + audioOffMs + 5000
+				au := []byte{1, 2, 3, byte(nextAudio >> 10)}
+				for n := rnd.Intn(6); n > 0; n-- {
+					au = append(au, byte(n))
+				}
+				apts := nextAudio + audioOffMs*441/10
 				sub.WriteUnit(desc.Medias[1], desc.Medias[1].Formats[0], &unit.Unit{
-					PTS: nextAudio, NTP: base.Add(time.Duration(nextAudio) * time.Second / 44100),
-					Payload: unit.PayloadMPEG4Audio{{1, 2, 3, byte(nextAudio)}},
+					PTS: apts, NTP: base.Add(time.Duration(ams) * time.Millisecond),
+					Payload: unit.PayloadMPEG4Audio{au},
 				})
+				strmModel.Events = append(strmModel.Events, c27Event{Track: 1, DTS: apts, NTP: ams, Size: len(au)})
 				nextAudio += 1024
 			}
+		}
+		if audioFirst {
+			writeVideo()
 		}
 		if i%16 == 15 {
 			time.Sleep(2 * time.Millisecond) // let the recorder drain its queue
 		}
 	}
-	time.Sleep(100 * time.Millisecond)
+	// end marker: a video unit whose PTS goes backwards makes the MPEG-4 Video callback return an error (before
+	// formatFMP4Track.write is reached); the reader stops there - after everything written before it - the instance
+	// logs the error and closes the format. No sleep-and-hope.
+	sub.WriteUnit(desc.Medias[0], desc.Medias[0].Formats[0], &unit.Unit{
+		PTS: int64(frames-1)*3600 - 1, NTP: base, Payload: unit.PayloadMPEG4Video([]byte{0, 0, 1, 0xB6, 1}),
+	})
+	select {
+	case <-drained:
+	case <-time.After(30 * time.Second):
+		t.Fatalf("recorder did not reach the end marker")
+	}
 	w.Close()
 
 	for _, s := range segs {
 		rec.Segments = append(rec.Segments, *s)
 	}
 	sort.Slice(rec.Segments, func(a, b int) bool { return rec.Segments[a].Path < rec.Segments[b].Path })
-	return rec
+	obs := &c27Obs{}
+	for _, p := range created {
+		g, err := c27ReadSeg(p, false)
+		if err != nil {
+			t.Fatalf("%s: %v", p, err)
+		}
+		obs.Segs = append(obs.Segs, *g)
+		if segs[p].Complete {
+			obs.Reported = append(obs.Reported, segs[p].DurationNs)
+		}
+	}
+	return rec, strmModel, obs
 }
 
 func TestVerifC27Rec(t *testing.T) {
@@ -155,11 +222,21 @@ func TestVerifC27Rec(t *testing.T) {
 		t.Fatal(err)
 	}
 	var recs []c27Rec
-	recs = append(recs, c27Record(t, dir, rnd, "av", 100, 1000, true, 90))
-	recs = append(recs, c27Record(t, dir, rnd, "v", 200, 800, false, 70))
+	add := func(name string, partMs, segMs int, withAudio bool, frames int, audioOffMs int64, audioFirst bool) {
+		r, sm, obs := c27Record(t, dir, rnd, name, partMs, segMs, withAudio, frames, audioOffMs, audioFirst)
+		recs = append(recs, r)
+		out.Case(cqApp("CRec", c27CoqStream(sm), c27CoqObs(obs)),
+			map[string]any{"recording": name, "stream": sm, "observed": obs, "gop": r.GOP, "audio_offset_ms": audioOffMs, "log": r.Log},
+			fmt.Sprintf("recorder: audio=%v offset=%d audio-first=%v warnings=%d", withAudio, audioOffMs, audioFirst, len(r.Log)),
+			len(obs.Segs) > 1)
+	}
+	// av: the audio starts 10 ms after the first key frame (frame 2 = 80 ms) and two audio frames arrive before the
+	// next video frame: audio creates the first segment at 90 ms and the key frame is late (the case of fix 2f5314e)
+	add("av", 100, 1000, true, 90, 90, true)
+	add("v", 200, 800, false, 70, 0, false)
 	if os.Getenv("VERIF_TIER") == "thorough" {
 		for k := 0; k < 6; k++ {
-			recs = append(recs, c27Record(t, dir, rnd, fmt.Sprintf("r%d", k), 50+rnd.Intn(300), 500+rnd.Intn(1500), rnd.Bool(), 60+rnd.Intn(120)))
+			add(fmt.Sprintf("r%d", k), 50+rnd.Intn(300), 500+rnd.Intn(1500), rnd.Bool(), 60+rnd.Intn(120), int64(rnd.Intn(400)-200), rnd.Bool())
 		}
 	}
 	b, err := json.MarshalIndent(recs, "", " ")
@@ -172,9 +249,16 @@ func TestVerifC27Rec(t *testing.T) {
 	nseg := 0
 	for _, r := range recs {
 		nseg += len(r.Segments)
-		out.Case("", map[string]any{"recording": r.Name, "segments": len(r.Segments), "gop": r.GOP}, "recorded", len(r.Segments) > 1)
 	}
 	if nseg < 3 {
 		t.Fatalf("only %d segments recorded", nseg)
 	}
+	// segmenter cases: generated sample streams handed to formatFMP4Track.write directly
+	nseg2, nst := 30, 3
+	if os.Getenv("VERIF_TIER") == "thorough" {
+		nseg2, nst = 1500, 12
+	}
+	c27SegCases(t, out, rnd, filepath.Join(dir, "seg"), nseg2)
+	// the same in a child process under strace
+	c27StraceCases(t, out, vSeed(), filepath.Join(dir, "strace"), nst)
 }
